@@ -16,7 +16,8 @@ BUF, S0, E0 = Lin.sym('BUF'), Lin.sym('S'), Lin.sym('E')
 
 
 class ReaderModel(LinModel):
-    def __init__(self, prog, chunk, eof0, ctor=False):
+    def __init__(self, prog, chunk, eof0, ctor=False, failing=False):
+        self.failing = failing      # the stream stops delivering bytes without reaching its end (badbit / failbit, no eofbit)
         self.ctor = ctor
         self.prog = prog
         self.C = chunk
@@ -59,6 +60,9 @@ class ReaderModel(LinModel):
                 self.inside(it, fr, n, 'istream::read stores inside mEncodedBuffer', p, cnt)
                 if it.read_key(fr, 'stream.eof') == 1:
                     g = Lin.of(0)
+                elif self.failing:
+                    g = Lin.of(0)
+                    it.act('FAILED')
                 elif it.choose('SHORTREAD@%s' % fr.f.loc(n)):
                     g = self.fresh(it, 'G', 0, None)
                     it.facts.append(lt(g, cnt))
@@ -141,8 +145,8 @@ class ReaderInterp(LinInterp, Interp):
     pass
 
 
-def analyse(prog, f, chunk, eof0, ctor=False):
-    model = ReaderModel(prog, chunk, eof0, ctor)
+def analyse(prog, f, chunk, eof0, ctor=False, failing=False):
+    model = ReaderModel(prog, chunk, eof0, ctor, failing)
     it = ReaderInterp(prog, model, max_depth=3, max_paths=600)
 
     def init(it_, fr):
@@ -151,6 +155,8 @@ def analyse(prog, f, chunk, eof0, ctor=False):
             it_.facts = []
         else:
             it_.facts = [le(BUF, S0), le(S0, E0), le(E0, BUF + chunk)]
+            if failing:
+                it_.facts.extend(eq(S0, E0))        # nothing is buffered: whatever ReadChunk returns, it has no data to return it with
         for p in f.params:
             fr.env[p['d']] = TOP
     out = []
@@ -177,6 +183,9 @@ def check(prog, rep, ids=None):
     if R7:
       rep.rule(R7, 'CEncodedStreamReader::ReadChunk at end of file: a Success result leaves the window empty, so IsEnd() becomes true '
                       '(otherwise every "until IsEnd()" loop of a caller spins forever on a truncated last unit)', floor=4)
+    if ids.get('R13.12'):
+      rep.rule(ids['R13.12'], 'CEncodedStreamReader::ReadChunk on a stream that has failed without reaching its end (nothing buffered, read() delivers '
+                              'nothing, eofbit clear): the result is not Success, so no caller can spin on it', floor=4)
     if R8:
       rep.rule(R8, 'CEncodedStreamReader::ReadChunk returns EndFile only with an empty window and DecodeError only when a decoding error was '
                       'reported or a truncated tail was refused by the policy', floor=8)
@@ -243,6 +252,22 @@ def check(prog, rep, ids=None):
                                 ok = code is not None and policy.get('POLICY=Skip') is False and eof1 == 1
                                 why = 'DecodeError although the decoder reported Success and nothing was refused'
                             agg.setdefault(('R13.8', '%s|DecodeError' % fshort), []).append((ok, why))
+            if nm == 'ReadChunk' and ids.get('R13.12'):
+                # a stream that fails (read() delivers nothing, eofbit not set) while nothing is buffered: Success would be 'no data, not the end' -
+                # every caller loop (`while (!IsEnd()) ReadChunk(...)`, the CSV scanner) then spins forever
+                oks = []
+                for p, cns in analyse(prog, f, chunk, False, failing=True):
+                    if p.outcome[0] == 'THROW' or not any(a[0] == 'FAILED' for a in p.actions):
+                        continue
+                    oks.append(p.outcome[1] != enum_res['Success'])
+                if not oks:
+                    raise AnalysisBroken('encoded reader: no path of ReadChunk reaches a read on a failing stream')
+                if all(oks):
+                    rep.ok(ids['R13.12'], '%s|failing stream' % fshort, sample={'function': fshort, 'paths': len(oks)})
+                else:
+                    rep.finding(ids['R13.12'], '%s|Success on a failed stream' % strip_targs(fshort), f.loc(),
+                                '%s: with an empty window and a stream whose read() delivers nothing without setting eofbit (device error), ReadChunk '
+                                'returns Success: callers see "no data, not the end" and loop forever instead of getting EndFile / an error' % fshort, func=f.id)
             if not n_paths:
                 raise AnalysisBroken('encoded reader: no feasible path through %s' % f.id[:120])
             for key, oks in sorted(agg.items(), key=lambda kv: str(kv[0])):
